@@ -122,7 +122,7 @@ func checkC15(ctx *pbt.Ctx, c c15Case) error {
 // ---- random strings and mutations of valid texts ----
 
 var c15Alphabet = []rune("\"@[]<>/_:^t1, \t\\.-Tz+0eaxlbo\n世")
-var c15Fragments = []string{"\"^^type:", "type:", "text", "bool", "int64", "float64", "blob", "\"@[", "]", "@[]", "[]", "[1 2]", "_:", "/t<", ">", "\t", "2006-01-02T15:04:05Z", "true", "^^", "\"\"", "TEXT", "Int64", "1e400", "-", "9223372036854775808", "256", "\\\"", "\\"}
+var c15Fragments = []string{"\"^^type:", "type:", "text", "bool", "int64", "float64", "blob", "\"@[", "]", "@[]", "[]", "[1 2]", "_:", "/t<", ">", "\t", "2006-01-02T15:04:05Z", "true", "^^", "\"\"", "TEXT", "Int64", "1e400", "-", "9223372036854775808", "256", "\\\"", "\\", "\\\\\"", "\""}
 
 func mutateText(t *rapid.T, s string) string {
 	r := []rune(s)
@@ -222,7 +222,7 @@ func TestC15(t *testing.T) {
 
 // ---- exhaustive small strings over the delimiter alphabet ----
 
-var c15ExhAlphabet = []string{"\"", "@", "[", "]", "<", ">", "/", "_", ":", "^", "t", "1", ",", " "}
+var c15ExhAlphabet = []string{"\"", "@", "[", "]", "<", ">", "/", "_", ":", "^", "t", "1", ",", " ", "\\"}
 var c15Suffixes = []string{"", "\"^^type:text", "\"^^type:blob", "\"^^type:int64", "\"^^type:bool", "\"^^type:float64", "\"^^type:x", "\"@[]", "\"@[2006-01-02T15:04:05Z]", ">"}
 
 func TestC15Exh(t *testing.T) {
